@@ -2,4 +2,5 @@
    computation over the finitely many paths. *)
 From FMP Require Import Model.Paths.
 Theorem paths_encoder_refuse_before_handoff : encoder_paths_refuse_before_handoff = true. Proof. vm_compute. reflexivity. Qed.
+Theorem paths_writer_vocabulary : writer_loop_vocabulary = true. Proof. vm_compute. reflexivity. Qed.
 Print Assumptions paths_encoder_refuse_before_handoff.
